@@ -2,7 +2,7 @@
    `unification::unify` started from and what it left behind (harness/src/cmd_unify.rs).  Depends on the
    models only (not on the proofs), so the search still runs when a proof obligation is broken. *)
 From Coq Require Import String.
-From SLX Require Import Base VectorMap DisjointSet gen.Constants gen.WordUseTable TypeExpr Merge MergeCases Unify.
+From SLX Require Import Base VectorMap DisjointSet gen.Constants gen.WordUseTable TypeExpr Merge MergeCases Unify UnifyOrder.
 Open Scope N_scope.
 
 Inductive omode := OSorted | OSortedRev | OSeeded (seed : N) | OOther.
@@ -216,3 +216,46 @@ Definition check_case_ex (c : ucase) (ex : expectation) : N :=
 
 Definition check_case (c : ucase) : N := check_case_ex c [].
 Definition check_case_with (ce : ucase * expectation) : N := check_case_ex (fst ce) (snd ce).
+
+(* ------------------------------------------------------------------------------------------ *)
+(* C02 at the unification stage: the same judgement set run by the implementation in two iteration orders
+   (Sorted and SortedReversed).  When the judgement set lies in the fragment `order_free` (UnifyOrder.v) on
+   which unification is PROVED independent of every order (props/C02_unify.v), the two results must agree:
+   same members, same classes -- and exactly the classes of the computed congruence closure --, same data up to
+   class representatives and conflict payloads.
+     0 inside the fragment and the results agree; 99 outside the fragment (nothing claimed);
+     60 inside the fragment, a run did not return; 61 members differ; 62 classes differ between the orders;
+     63 the classes are not the congruence closure; 64 a class's data differs. *)
+Definition data_sim (c : N -> N) (d1 d2 : list xte) : bool :=
+  match d1, d2 with
+  | [], [] => true
+  | [x1], [x2] => te_sim c (conv x1) (conv x2)
+  | _, _ => false
+  end.
+
+Definition order_pair_code (c1 : ucase) (out2 : uout) : N :=
+  match c1 with
+  | UCase _ n0 inf out1 _ =>
+      let st := state_of n0 inf in
+      if negb (order_free st) then 99 else
+      match out1, out2 with
+      | UOk _ _ rows1, UOk _ _ rows2 =>
+          let mem1 := map (fun r => fst (fst r)) rows1 in
+          let root1 (v : N) : N := match root_in rows1 v with Some r => r | None => v end in
+          let root2 (v : N) : N := match root_in rows2 v with Some r => r | None => v end in
+          let cl := part_of (cc st) in
+          if negb (list_eqb N.eqb mem1 (map (fun r => fst (fst r)) rows2)) then 61
+          else if negb (forallb (fun v => forallb (fun w => Bool.eqb (root1 v =? root1 w) (root2 v =? root2 w)) mem1) mem1) then 62
+          else if negb (forallb (fun v => forallb (fun w => Bool.eqb (root1 v =? root1 w) (same_in cl v w)) mem1) mem1) then 63
+          else if negb (forallb (fun r => negb (fst (fst r) =? snd (fst r))
+                                          || match find (fun r2 => fst (fst r2) =? root2 (fst (fst r))) rows2 with
+                                             | Some r2 => data_sim root1 (snd r) (snd r2)
+                                             | None => false
+                                             end) rows1) then 64
+          else 0
+      | _, _ => 60
+      end
+  | _ => 99
+  end.
+(* the Sorted run as a whole case, the outcome of the SortedReversed run of the same judgement set *)
+Definition check_order_pair (cc2 : ucase * uout) : N := order_pair_code (fst cc2) (snd cc2).
